@@ -249,7 +249,12 @@ def step (d : D) (line : String) : D × String :=
       -- terminal advertised in its replies (fake console capability mask)
       let verdict := match (kv rest "mask").bind String.toNat? with
         | some m =>
-          let want := capsOfMask m
+          -- `probe=silent` / `probe=col7`: the explicit-width probe was not answered / answered with a column that is
+          -- neither 1 nor 2 — no advertisement of explicit width, whatever the mask says
+          let probeStd := ((kv rest "probe").getD "std") == "std"
+          let want0 := capsOfMask m
+          let want := if probeStd then want0 else
+            (Caps.fieldNames.zip want0).map fun (x : String × Bool) => if x.1 == "explicitWidth" then false else x.2
           let got := s.vs.caps.toList
           -- explicitWidth = the probe was answered with column 2 (mask bit 15; with a tiny event queue the answer may
           -- be stuck behind a full queue until the 50 ms time-out: not compared then); noZWJ = the quirk of a terminal
